@@ -89,7 +89,7 @@ reg("C19",
 reg("C09",
     "Differential monitor: one decoded audio is split through 14 container kinds x 5 parameter spellings and max_read "
     "variants; every region list must equal the bytes/long-names reference, which is itself tied to the ENERGY->SEG model.",
-    "Trusts: the reference path is checked against the model in the same run. AudioReader container only when its block equals the window. Microphone not covered (no PyAudio).",
+    "Trusts: the reference path is checked against the model in the same run. AudioReader container only when its block equals the window. Microphone only through a stand-in pyaudio module.",
     "runtime monitoring: differential oracle across code paths + reference model", "DESIGN.md section 7 C09")
 reg("C20",
     "History monitor: second use of one object compared with a fresh object's result; bounded-exhaustive over all ordered "
@@ -125,5 +125,5 @@ reg("C15",
     "End-to-end differential monitor: cmdline.main(argv) in-process and real child processes vs split() called with kwargs "
     "rebuilt from argv with the documented defaults hard-coded; output parsed back through an independent formatter oracle; "
     "files checked byte-exactly; formatter checked on generated durations.",
-    "Trusts: split() as detection oracle (C05). Timestamp, plotting, echo, microphone, compressed formats not covered.",
+    "Trusts: split() as detection oracle (C05). {timestamp} matched by shape only. Plotting, echo, microphone, compressed formats not covered.",
     "runtime monitoring: end-to-end differential oracle on stdout, exit status and files", "DESIGN.md section 7 C15")
